@@ -44,6 +44,12 @@ thread_local! {
     static QUIET_PANICS: std::cell::Cell<bool> = const { std::cell::Cell::new(false) };
 }
 
+/// Silences (true) or restores (false) the printing of panics on this thread; their location is
+/// recorded either way.
+pub fn quiet_panics(q: bool) {
+    QUIET_PANICS.with(|c| c.set(q));
+}
+
 pub fn install_panic_hook() {
     let default = std::panic::take_hook();
     std::panic::set_hook(Box::new(move |info| {
